@@ -268,6 +268,13 @@ class Sym(Interp):
             # (x if c else (y, 0))[k]: the index goes into both alternatives - a display is taken apart, an opaque value indexed
             return self.mkphi(b[1], T(self.h_subscript(b[2], idx, n, env, ctx)), T(self.h_subscript(b[3], idx, n, env, ctx)))
         ti = T(idx)
+        if isinstance(ti, tuple) and len(ti) == 4 and ti[0] == "ext" and ti[1] == "slice" and 1 <= len(ti[2]) <= 3 and not ti[3]:
+            a_ = list(ti[2])                                  # x[slice(a, b)] is x[a:b]
+            a_ = [NONE, a_[0], NONE] if len(a_) == 1 else (a_ + [NONE] if len(a_) == 2 else a_)
+            return self.h_subscript(base, ("slice", a_[0], a_[1], a_[2]), n, env, ctx)
+        if isinstance(ti, tuple) and len(ti) == 4 and ti[0] == "phi" and all(isinstance(x_, tuple) and x_ and (x_[0] == "slice" or (x_[0] == "ext" and x_[1] == "slice")) for x_ in ti[2:4]):
+            # x[s1 if c else s2] with two slices: the condition selects between two slices of x
+            return self.mkphi(ti[1], T(self.h_subscript(base, ti[2], n, env, ctx)), T(self.h_subscript(base, ti[3], n, env, ctx)))
         if b[0] == "sub" and isinstance(b[1], tuple) and len(b[1]) == 3 and b[1][0] == "attr" and b[1][2] == "T" and not (isinstance(ti, tuple) and ti and ti[0] in ("tuple", "slice")) \
                 and not (isinstance(b[2], tuple) and b[2] and b[2][0] in ("tuple", "slice")):
             return ("sub", b[1][1], ("tuple", (ti, b[2])))          # X.T[k][i] is X[i, k]
@@ -318,6 +325,10 @@ class Sym(Interp):
                     return ("const", l[1] * r[1])
             except Exception:
                 pass
+        if o in ("+", "-") and is_const(r) and isinstance(r[1], int) and not isinstance(r[1], bool) and l[0] == "binop" and l[1] == "+" and isinstance(l[2], tuple) and \
+                l[2][:1] == ("idx",) and is_const(l[3]) and isinstance(l[3][1], int) and not isinstance(l[3][1], bool):
+            c_ = l[3][1] + (r[1] if o == "+" else -r[1])           # (position + c1) + c2: a hand-kept counter that starts at c1
+            return l[2] if c_ == 0 else ("binop", "+", l[2], ("const", c_))
         return ("binop", o, l, r)
 
     def h_compare(self, ops, vals, n, ctx):
@@ -641,7 +652,7 @@ class Sym(Interp):
         return super().attr_of(v, attr, n, env, ctx)
 
     def h_augassign(self, op, cur, val, n, env, ctx):
-        return ("binop", OPS[type(op)], T(cur), T(val))
+        return self.h_binop(op, cur, val, n, ctx)
 
     def h_bind(self, name, v, n, env, ctx):
         return v
@@ -790,6 +801,8 @@ class Sym(Interp):
         the unconverted term stands for them (copy-ness is the ownership domain's business)"""
         def conv_of(t, x):
             return isinstance(t, tuple) and len(t) == 4 and t[0] == "ext" and t[1] in VALUE_CONVERSIONS and len(t[2]) == 1 and t[2][0] == x and not t[3]
+        if ta == tb:
+            return ta
         if conv_of(ta, tb):
             return tb
         if conv_of(tb, ta):
@@ -878,9 +891,12 @@ class Sym(Interp):
         cur = dict(env)
         cur["$loops"] = env.get("$loops", ()) + (lid,)
         init = {}
+        ind = getattr(self, "_induction", {}).get((lid, id(s)), {})
+        nfacts2, order2, memo2 = len(self.facts), self._order, set(self.memo)
+        attrs2 = dict(ctx.self_obj.attrs) if isinstance(ctx.self_obj, ObjV) else None
         for k in changed:
             init[k] = T(env[k])
-            cur[k] = ("mu", lid, k)
+            cur[k] = ind.get(k, ("mu", lid, k))
         ctx.loops.append({"breaks": [], "conts": []})
         try:
             if is_for:
@@ -917,10 +933,29 @@ class Sym(Interp):
                     nxt[k] = T(m[k])
                     continue
             nxt[k] = u[0] if len(u) == 1 else (("join", tuple(u)) if u else ("mu", lid, k))
+        if is_for and not ind:
+            # a counter kept by hand (k = 0 before the loop, k += 1 once on every path of the body) is the position of the current element: enumerate()
+            tv_ = T(itv)
+            pos = ("idx", tv_[2][0]) if tv_[0] == "ext" and tv_[1] == "enumerate" and len(tv_[2]) == 1 else ("idx", tv_)
+            found = {k: (pos if init[k][1] == 0 else ("binop", "+", pos, ("const", init[k][1]))) for k in changed
+                     if is_const(init[k]) and isinstance(init[k][1], int) and not isinstance(init[k][1], bool) and
+                     nxt.get(k) in (("binop", "+", ("mu", lid, k), ("const", 1)), ("binop", "+", ("const", 1), ("mu", lid, k)))}
+            if found:
+                if not hasattr(self, "_induction"):
+                    self._induction = {}
+                self._induction[(lid, id(s))] = found
+                del self.facts[nfacts2:]
+                self._order = order2
+                for k_ in set(self.memo) - memo2:
+                    del self.memo[k_]
+                if attrs2 is not None:
+                    ctx.self_obj.attrs.clear()
+                    ctx.self_obj.attrs.update(attrs2)
+                return self._loop(s, env, ctx, is_for)
         self.loopinfo[lid] = {"node": s, "iter": T(itv) if itv is not None else None, "test": T(test) if test is not None else None,
                               "init": init, "next": nxt, "changed": sorted(changed), "func": home_qname(ctx),
                               "body_out": out, "breaks": lp["breaks"], "entry": entry,
-                              "target": norm(s.target) if is_for else None}
+                              "target": norm(s.target) if is_for else None, "induction": dict(ind)}
         self.fact("loop", ctx, s, env, lid=lid, iter=T(itv) if itv is not None else None,
                   test=T(test) if test is not None else None)
         after = dict(env)
